@@ -779,6 +779,7 @@ type hist struct {
 	onCb func()
 	// express: the application's reused name buffer
 	nameBuf enc.Name
+	digBuf  [32]byte
 	// mgmtf: a management command was issued in this history (its Interest is pending inside the engine)
 	mgmtUsed bool
 	dead     bool
@@ -990,6 +991,12 @@ func (h *hist) execOp(op string) string {
 		// of an expressed Interest must not depend on the application's slice afterwards
 		h.nameBuf = append(h.nameBuf[:0], name...)
 		name = h.nameBuf
+		// ... and keeps the implicit digest it asks for in ONE reused 32-byte array (a hash.Sum(buf[:0]) target):
+		// the digest a pending Interest waits for must not change when the application computes the next one
+		if k := len(name) - 1; k >= 0 && name[k].Typ == enc.TypeImplicitSha256DigestComponent && len(name[k].Val) == 32 {
+			copy(h.digBuf[:], name[k].Val)
+			name[k].Val = h.digBuf[:]
+		}
 		cfg := &ndn.InterestConfig{CanBePrefix: cbp, MustBeFresh: f[3] == "2" || f[3] == "3"}
 		if f[4] != "-" {
 			cfg.Lifetime = utils.IdPtr(time.Duration(common.Atoi(f[4])) * time.Microsecond)
